@@ -167,7 +167,15 @@ def validator(field: BaseField) -> Callable:
 
     def inner(func: Union[ConfigValidator, FieldValidator]) -> Callable:
         if isinstance(field, Field):
-            field.validator = func  # type: ignore
+            previous = field.validator
+            if not previous:
+                field.validator = func  # type: ignore
+            else:
+                # a validator is already registered (an earlier decorator or the ``validator``
+                # option): keep it, each validator receives the value the one before it returned
+                field.validator = lambda cfg, value: func(  # type: ignore
+                    cfg, previous(cfg, value)  # type: ignore
+                )
         elif isinstance(field, Schema):
             field._validators.append(func)  # type: ignore
 
